@@ -182,6 +182,14 @@ def subworkflow_cases(check):
     # main workflow in the file cache, with a file of that name present: the name must not resolve to the main workflow
     add({"workflow.yaml": main % "workflow", "workflow": LEAF}, "sub-workflow file named like the cache key of the main workflow", "keycollision:main", "ok")
     add({"workflow.yaml": main % "a.yaml", "a.yaml": SUB_TMPL % "workflow", "workflow": LEAF}, "nested sub-workflow file named like the cache key of the main workflow", "keycollision:nested", "ok")
+    # the same names when no such file exists: the loop's sub-workflow is missing - it is neither the main workflow nor the
+    # caller's input or configuration file
+    keys = {"input": "input.yaml", "config": "config.yaml"}
+    add({"workflow.yaml": main % "workflow"}, "missing sub-workflow named like the cache key of the main workflow", "keycollision:missing-main", "error", context_keys=keys)
+    add({"workflow.yaml": main % "input"}, "missing sub-workflow named like the cache key of the input file", "keycollision:missing-input", "error", context_keys=keys)
+    add({"workflow.yaml": main % "config"}, "missing sub-workflow named like the cache key of the configuration file", "keycollision:missing-config", "error", context_keys=keys)
+    add({"workflow.yaml": main % "a.yaml", "a.yaml": SUB_TMPL % "workflow"}, "missing nested sub-workflow named like the cache key of the main workflow", "keycollision:missing-nested", "error", context_keys=keys)
+    add({"workflow.yaml": main % "input", "input": LEAF}, "sub-workflow file named like the cache key of the input file", "keycollision:input-present", "ok", context_keys=keys)
     for k, text in enumerate(["?", "? \n: v\n", "? \n", ": v\n", "version: v0.2.0\n? \n: v\n", "steps:\n  ? \n  : {kind: foreach}\n"]):
         add({"workflow.yaml": text}, "main file with an empty key (%d)" % k, "emptykey:main", "error")
         add({"workflow.yaml": main % "a.yaml", "a.yaml": text}, "sub-workflow file with an empty key (%d)" % k, "emptykey:sub", "error")
@@ -334,7 +342,7 @@ def run(check):
         check.nontrivial("%s|%s" % (m["class"], verdict))
         if m.get("expect") and m["expect"] != verdict:
             check.report("subworkflow@%s->%s" % (m["class"], verdict), "%s: expected %s, got %s (%s)" % (m["what"], m["expect"], verdict, (err or "")[:200]), {"files": m["files"], "engine": m.get("engine")})
-        if m["class"] in ("missing", "missing:nested", "missing:wide") and err and "missing" not in err and "no such file" not in err and "not found" not in err:
+        if (m["class"] in ("missing", "missing:nested", "missing:wide") or m["class"].startswith("keycollision:missing")) and err and "missing" not in err and "no such file" not in err and "not found" not in err:
             check.report("subworkflow@missing-not-reported", "%s: error does not report the missing file: %s" % (m["what"], err[:200]), {"files": m["files"]})
         if len(check.samples) < 5 and i % 97 == 0:
             check.sample({"what": m["what"], "verdict": verdict, "error": (err or "")[:160]})
